@@ -85,7 +85,10 @@ Definition ts_at (st : TState (F:=F)) (offset speed : F) : TState :=
 
 Record BrkEnv := {
   be_grades : list (PRC (F:=F)); be_curves : list (PRC (F:=F)); be_rp : ResParams (F:=F);
-  be_sps : list SP; be_force_max : F; be_offset_begin : F }.
+  be_sps : list SP; be_force_max : F; be_offset_begin : F;
+  (* false: the code as it is (the capped point inherits the previous point's target even when the
+     adopted profile limit is lower); true: repo_patches/C03-target-le-limit.diff (target := min) *)
+  be_fix : bool }.
 
 Definition half : F := nlit 5 (-1).
 
@@ -110,7 +113,8 @@ Fixpoint brake_loop (fuel : nat) (e : BrkEnv) (st : TState (F:=F)) (c : ResCache
         let vc := dt * (be_force_max e + rn) / mass_compound (ts_p st2) in
         if speed_limit <? bp_limit bp + vc then
           let nb := {| bp_offset := bp_offset bp - dt * speed_limit; bp_limit := speed_limit;
-                       bp_target := bp_target bp |} in
+                       bp_target := if be_fix e then nmin (bp_target bp) speed_limit
+                                    else bp_target bp |} in
           if bp_limit bp =? speed_limit then Ok (nb :: acc, idx1, st2, c2)
           else if bp_offset nb <? be_offset_begin e then Ok (nb :: acc, idx1, st2, c2)
           else brake_loop f e st2 c2 (nb :: acc) idx1
